@@ -215,8 +215,10 @@ class Repo:
         self._mro_cache[key] = out
         return out
 
-    def walker(self, inline_depth=0, max_paths=4096, recv_types=None, fold=None, tag=None, keep=None):
-        return Walker(self.resolver(recv_types), max_paths=max_paths, inline_depth=inline_depth, fold=fold, tag=tag, keep=keep)
+    def walker(self, inline_depth=0, max_paths=4096, recv_types=None, fold=None, tag=None, keep=None, split_ifexp=False):
+        w = Walker(self.resolver(recv_types), max_paths=max_paths, inline_depth=inline_depth, fold=fold, tag=tag, keep=keep)
+        w.split_ifexp = split_ifexp
+        return w
 
     # ------------------------------------------------------ strategy table
     def strategies(self, ci):
@@ -254,7 +256,11 @@ class Repo:
                 raise Undecided('%s._compile: %s' % (ci.name, undecided))
             # guards relevant for strategy selection only (drop unrelated ones)
             g = [t for t in p.guard_texts()]
-            key = (cur['pack'].id if cur['pack'] else None, cur['unpack'].id if cur['unpack'] else None)
+            # method values parked in other attributes (a resolver chosen at compile time and called
+            # by the strategy) distinguish strategies that share their pack / unpack functions
+            mdefs = tuple(sorted((a_, v_.attr) for a_, v_ in defs.items()
+                                 if isinstance(v_, ast.Attribute) and isinstance(v_.value, ast.Name) and v_.value.id == 'self' and self.method(ci, v_.attr) is not None))
+            key = (cur['pack'].id if cur['pack'] else None, cur['unpack'].id if cur['unpack'] else None) + mdefs
             if key in seen:
                 for o in out:
                     if o['key'] == key:
